@@ -143,6 +143,7 @@ type c13op struct {
 	obsModel string // same format as the Lean model answer
 	obsSpec  string // same format as the Lean spec answer
 	straddle bool   // a failure string with LF was laid across two consecutive outputs
+	shape    []string // from-file variants: what is special about the file
 	faultAt  int    // the device never answers this line of the operation (-1: answers all)
 	derived  string // kind of failure string derived from the command / the prompt, if any
 	twinDiff string // n.cfg: SendConfig vs SendConfigs on an identical device
@@ -748,6 +749,45 @@ func c13GenOp(r *vlib.Rng, s *c13sess, thorough bool) *c13op {
 	}
 	if o.isFile() {
 		o.crlf = r.Chance(1, 4)
+		// FILE SHAPE: the commands transmitted must be the lines of the file, whatever they look like
+		if r.Chance(1, 4) { // a long line (bufio.Reader's default buffer is 4096 bytes)
+			i := r.Intn(n)
+			if o.cmds[i] != "" {
+				lens := []int{4095, 4096, 4097, 6000, 8192, 8193}
+				if thorough {
+					lens = append(lens, 12289, 20000)
+				}
+				if L := lens[r.Intn(len(lens))]; L > len(o.cmds[i])+1 {
+					o.cmds[i] += " " + strings.Repeat("x", L-len(o.cmds[i])-1)
+					o.shape = append(o.shape, "long-line:"+strconv.Itoa(L))
+					if s.seg > 0 && s.seg < 64 {
+						// thousands of 1-7 byte reads of a multi-kilobyte echo only measure the
+						// simulator's speed against the operation timeout; keep reads coarse here
+						s.seg = 64
+					}
+				}
+			}
+		}
+		for i := range o.cmds {
+			if o.cmds[i] == "" {
+				continue
+			}
+			switch r.Intn(16) {
+			case 0:
+				o.cmds[i] = "  " + o.cmds[i]
+				o.shape = append(o.shape, "leading-spaces")
+			case 1:
+				o.cmds[i] += " "
+				o.shape = append(o.shape, "trailing-space")
+			case 2:
+				o.cmds[i] = strings.Replace(o.cmds[i], " ", "\t", 1)
+				o.shape = append(o.shape, "tab")
+			}
+		}
+		if r.Chance(1, 12) {
+			o.cmds[0] = "\xef\xbb\xbf" + o.cmds[0] // a UTF-8 byte order mark is part of the first line
+			o.shape = append(o.shape, "bom")
+		}
 		o.trail = o.cmds[n-1] == "" || r.Chance(2, 3) // bufio.ScanLines drops a final empty line
 	}
 	o.class = "valid"
@@ -1460,9 +1500,157 @@ func c13DropBits(spec string) string {
 	return strings.Join(out, "|")
 }
 
+// c13RefLines: the lines of a file, by the definition the property uses (cut at LF, one trailing CR
+// of a line dropped, nothing for the empty remainder after the last LF)
+func c13RefLines(content string) []string {
+	ls := strings.Split(content, "\n")
+	if ls[len(ls)-1] == "" {
+		ls = ls[:len(ls)-1]
+	}
+	for i := range ls {
+		ls[i] = strings.TrimSuffix(ls[i], "\r")
+	}
+	return ls
+}
+
+func c13GenFile(r *vlib.Rng, big bool) (string, []string) {
+	alpha := []byte("abcxyz  \t-/.0123456789")
+	var b strings.Builder
+	var shape []string
+	if r.Chance(1, 8) {
+		b.WriteString("\xef\xbb\xbf")
+		shape = append(shape, "bom")
+	}
+	n := r.Intn(7)
+	for i := 0; i < n; i++ {
+		L := []int{0, 0, 1, 1, 2, 7, 20, 60}[r.Intn(8)]
+		if r.Chance(1, 5) {
+			ls := []int{4095, 4096, 4097, 6000, 8192, 12288, 12289}
+			if big {
+				ls = []int{65534, 65535, 65536, 65537, 70000, 131072}
+			}
+			L = ls[r.Intn(len(ls))]
+			shape = append(shape, "line:"+strconv.Itoa(L))
+		}
+		line := string(r.Bytes(L, alpha))
+		if L > 2 && r.Chance(1, 10) {
+			line = line[:L/2] + "\r" + line[L/2+1:] // a CR inside a line stays
+			shape = append(shape, "inner-cr")
+		}
+		b.WriteString(line)
+		last := i == n-1
+		switch {
+		case last && r.Chance(1, 3):
+			shape = append(shape, "no-trailing-newline")
+			if r.Chance(1, 4) {
+				b.WriteString("\r")
+				shape = append(shape, "cr-at-eof")
+			}
+		case r.Chance(1, 3):
+			b.WriteString("\r\n")
+			shape = append(shape, "crlf")
+		default:
+			b.WriteString("\n")
+		}
+	}
+	if n == 0 {
+		shape = append(shape, "empty-file")
+	}
+	return b.String(), shape
+}
+
+// c13FileLines ties util.LoadFileLines (behind every ...FromFile variant) directly: file content ->
+// lines, against the model (FileLines.lean) and, for files all of whose lines fit the scanner's
+// buffer, against the definition of "the lines of the file".
+func c13FileLines(c *ctx) {
+	res := c.res
+	type fc struct {
+		content string
+		shape   []string
+	}
+	var cases []fc
+	if c.replay != "" {
+		f := strings.Fields(c.replay)
+		b, _ := vlib.UnHex(f[2])
+		cases = append(cases, fc{content: string(b)})
+	} else {
+		for i, n := 0, c.n(400, 6000); i < n; i++ {
+			s, sh := c13GenFile(c.rng, false)
+			cases = append(cases, fc{s, sh})
+		}
+		for i, n := 0, c.n(24, 200); i < n; i++ {
+			s, sh := c13GenFile(c.rng, true)
+			cases = append(cases, fc{s, sh})
+		}
+	}
+	var lines []string
+	for _, x := range cases {
+		lines = append(lines, "c13 f.lines "+vlib.Hex([]byte(x.content)))
+	}
+	ans := c.ask(lines)
+	for i, x := range cases {
+		line := lines[i]
+		short := line
+		if len(short) > 300 {
+			short = short[:300] + "…"
+		}
+		res.Count("api:f.lines")
+		for _, sh := range x.shape {
+			res.Count("file-shape:" + sh)
+		}
+		a := strings.Fields(ans[i])
+		if len(a) != 2 {
+			res.Fail("machinery", short, "driver answered "+ans[i][:min(len(ans[i]), 200)], "driver")
+			continue
+		}
+		dom := a[0] == "1"
+		f, err := os.CreateTemp("", "verif-c13-lines-*")
+		if err != nil {
+			res.Fail("machinery", short, err.Error(), "setup")
+			continue
+		}
+		f.WriteString(x.content)
+		f.Close()
+		got, lerr := util.LoadFileLines(f.Name())
+		os.Remove(f.Name())
+		res.Case(line, dom && strings.Count(x.content, "\n") >= 2)
+		lens := func(l []string) string {
+			var p []string
+			for _, s := range l {
+				p = append(p, strconv.Itoa(len(s)))
+			}
+			return "[" + strings.Join(p, " ") + "]"
+		}
+		if lerr != nil {
+			res.Fail("oracle", line, "LoadFileLines failed on a readable file: "+lerr.Error(), "file-lines:error")
+			continue
+		}
+		if dom {
+			res.InDomain++
+			want := c13RefLines(x.content)
+			if strings.Join(got, "\x00") != strings.Join(want, "\x00") || len(got) != len(want) {
+				res.Fail("oracle", line, fmt.Sprintf("the file has %d lines of lengths %s; LoadFileLines returned %d of lengths %s (shape %v)",
+					len(want), lens(want), len(got), lens(got), x.shape), "file-lines-differ")
+				continue
+			}
+		} else {
+			res.Count("file-shape:line-beyond-scanner-buffer")
+		}
+		if vlib.HexList(strsB(got)) != a[1] {
+			res.Fail("correspondence", line, fmt.Sprintf("LoadFileLines returned %d lines of lengths %s; the model differs (shape %v)", len(got), lens(got), x.shape), "impl-vs-model:f.lines")
+		}
+	}
+}
+
 func runC13(c *ctx) {
 	res := c.res
-	res.Rule = "sessions of 1-4 operations on real generic/network drivers over the CLI simulator: SendCommand(s)/FromFile, SendConfigs/FromFile, SendConfig x driver-level list (absent/empty/1-3 strings) x operation-level list (absent/empty/1-3 strings) x stop-on-failed x 1-7 (thorough -14) commands (some empty) x failure placement none/first/middle/last/several/all/random x outputs embedding in-force strings, not-in-force strings, near misses (prefix, case, split over lines), failure strings containing LF laid across the joint of two consecutive outputs x read segmentation; every SendConfig is re-run as SendConfigs on an identical device and verdicts and JoinedResult compared; failure strings with regex metacharacters (and outputs only their regex reading would match), failure strings taken from the echoed command / the echo-output joint / the output-prompt joint / the prompt (with and without WithNoStripPrompt); Error() texts of every OperationError / MultiOperationError compared with the model; drivers built by platform.NewPlatform(Variant) for every embedded definition (its failed-when-contains list in force); a device that stops answering in the middle of the last operation; every call's operation options are a list in random order (a losing earlier WithFailedWhenContains, WithStopOnFailed twice) mixed with 0-3 operation options of other layers (WithNoStripPrompt, WithTimeoutOps, WithExactMatchInput, netconf WithFilterType, network WithPrivilegeLevel) before/between/after them; malformed stream: empty lists/files, missing files, empty failure strings, an option that returns an error; direct tie of response.NewResponse/Record/AppendResponse on arbitrary byte outputs over {a,b,LF,space} (random) and every needle of 1-3 bytes x every output of 0-5 bytes over {a,b} (exhaustive). non-trivial = in-domain operation with >= 2 commands or any failed response; distinct by case line"
+	res.Rule = "sessions of 1-4 operations on real generic/network drivers over the CLI simulator: SendCommand(s)/FromFile, SendConfigs/FromFile, SendConfig x driver-level list (absent/empty/1-3 strings) x operation-level list (absent/empty/1-3 strings) x stop-on-failed x 1-7 (thorough -14) commands (some empty) x failure placement none/first/middle/last/several/all/random x outputs embedding in-force strings, not-in-force strings, near misses (prefix, case, split over lines), failure strings containing LF laid across the joint of two consecutive outputs x read segmentation; every SendConfig is re-run as SendConfigs on an identical device and verdicts and JoinedResult compared; failure strings with regex metacharacters (and outputs only their regex reading would match), failure strings taken from the echoed command / the echo-output joint / the output-prompt joint / the prompt (with and without WithNoStripPrompt); Error() texts of every OperationError / MultiOperationError compared with the model; drivers built by platform.NewPlatform(Variant) for every embedded definition (its failed-when-contains list in force); a device that stops answering in the middle of the last operation; FILE SHAPE of the from-file variants: lines of 4095/4096/4097/6000/8192/8193 bytes, leading/trailing spaces, tabs, a UTF-8 BOM, CRLF, no trailing newline, blank lines (transmitted commands = lines of the file); direct tie of util.LoadFileLines on generated files incl. lines of 65534..131072 bytes (beyond bufio.Scanner's buffer: out of domain, compared with the model); every call's operation options are a list in random order (a losing earlier WithFailedWhenContains, WithStopOnFailed twice) mixed with 0-3 operation options of other layers (WithNoStripPrompt, WithTimeoutOps, WithExactMatchInput, netconf WithFilterType, network WithPrivilegeLevel) before/between/after them; malformed stream: empty lists/files, missing files, empty failure strings, an option that returns an error; direct tie of response.NewResponse/Record/AppendResponse on arbitrary byte outputs over {a,b,LF,space} (random) and every needle of 1-3 bytes x every output of 0-5 bytes over {a,b} (exhaustive). non-trivial = in-domain operation with >= 2 commands or any failed response; distinct by case line"
+	if c.replay == "" || strings.HasPrefix(c.replay, "c13 f.lines ") {
+		c13FileLines(c)
+		if c.replay != "" {
+			return
+		}
+	}
 	var sessions []*c13sess
 	if c.replay != "" {
 		s, err := c13ParseLine(c.replay)
@@ -1657,6 +1845,17 @@ func runC13(c *ctx) {
 			}
 			if o.derived != "" {
 				res.Count("failure-string-from:" + o.derived)
+			}
+			for _, sh := range o.shape {
+				res.Count("file-shape:" + sh)
+			}
+			if o.isFile() && !o.noFile {
+				if o.crlf {
+					res.Count("file-shape:crlf")
+				}
+				if !o.trail {
+					res.Count("file-shape:no-trailing-newline")
+				}
 			}
 			if s.platform != "" {
 				res.Count("platform-built-driver")
